@@ -64,6 +64,11 @@ def pair_wf(a, b):
         return False
     # primary-key membership of a surviving column must not change: autogenerate documents that it does not detect
     # primary key changes, so such a pair (only the independently generated B's produce it) is outside the property
+    # (= Spec.Diff.PkStable; the driver's pkStableB is compared with this on every pair)
+    return pk_stable(a, b) and _no_dropped_referenced(a, b)
+
+
+def pk_stable(a, b):
     for ta in a["tables"]:
         tb = next((t for t in b["tables"] if t["name"] == ta["name"]), None)
         if tb is None:
@@ -73,6 +78,10 @@ def pair_wf(a, b):
         common = {c["name"] for c in ta["cols"]} & {c["name"] for c in tb["cols"]}
         if pka & common != pkb & common:
             return False
+    return True
+
+
+def _no_dropped_referenced(a, b):
     bn = {t["name"] for t in b["tables"]}
     dropped = {t["name"] for t in a["tables"]} - bn
     for t in a["tables"]:
@@ -316,7 +325,7 @@ def run_pair(ctx, a, b, ct, cd, batch, pending, compare_model=True):
             return "converge-error"
         pending.append(("converge", inp, ops2, {"first": ops, "src": src, "second_diff_context": "same" if same_ctx else "fresh"}))
         if compare_model and in_class:
-            pending.append(("db", {**inp, "b": order_b(b, mdb)}, live_dump(conn), None))
+            pending.append(("db", {**inp, "b": order_b(b, mdb)}, live_dump(conn), {"recreated": getattr(S.exec_upgrade, "recreated", None)}))
         ctx.hist("pair.outcome", "ok" if not ops2 else "residual")
         if ops:
             ctx.nontrivial((repr(ct), repr(cd), batch, repr(S.normalise_order(ops))))
@@ -351,6 +360,8 @@ def flush_pairs(ctx, pending):
                              tags=[kind, "batch:%s" % inp["batch"]] + op_tags(o, inp["a"], inp["a"] if kind == "quiet" else inp["b"]))
         elif kind == "diff":
             mo = m.get("ops")
+            if "pkStable" in m and m["pkStable"] != pk_stable(inp["a"], inp["b"]):
+                ctx.disagree("diff.pkStable", inp, pk_stable(inp["a"], inp["b"]), m["pkStable"], "class predicate PkStable: harness and Lean differ")
             if mo is None or S.normalise_order(mo) != S.normalise_order(ops):
                 ctx.disagree("diff.diff", inp, S.normalise_order(ops), mo if mo is None else S.normalise_order(mo),
                              "in-class" if extra else "outside-class")
@@ -359,6 +370,11 @@ def flush_pairs(ctx, pending):
         elif kind == "db":
             if "err" in m or model_dump(m["db"]) != ops or m["second"] != []:
                 ctx.disagree("diff.converge", inp, ops, m.get("db"), "database after the upgrade differs from Model.Apply (or the model does not converge)")
+            elif inp["batch"] and extra and extra.get("recreated") is not None and sorted(m.get("recreates", [])) != extra["recreated"] \
+                    and not any(c.get("computed") for sch in (inp["a"], inp["b"]) for t in sch["tables"] for c in t["cols"]):
+                # (a persisted Computed column is a further reason to recreate, outside the model's column vocabulary)
+                ctx.disagree("diff.batchRecreates", inp, extra["recreated"], sorted(m.get("recreates", [])),
+                             "tables recreated by the batch blocks differ from Model.Diff.recreatedTables")
             else:
                 ctx.trace_ok()
     pending.clear()
